@@ -526,12 +526,42 @@ pub fn any_int(r: &mut Rng, lo: i128, hi: i128) -> i128 {
 }
 
 pub fn f32_bits(r: &mut Rng) -> u32 {
+    if r.chance(1, 4) { if let Some(b) = decimal_exact_bin(r, 23, 8) { return b as u32; } }
     let sign = (r.below(2) as u32) << 31;
     let exp = match r.below(8) { 0 => 0, 1 => 255, 2 => 1, 3 => 254, _ => r.below(256) as u32 };
     let frac = match r.below(6) { 0 => 0, 1 => 0x7FFFFF, 2 => 1, 3 => 0x400000, 4 => 1u32 << r.below(23), _ => r.next() as u32 & 0x7FFFFF };
     sign | (exp << 23) | frac
 }
+/// A binary value M·2^E given as exact integers (M < 2^53 resp. 2^24), packed into the interchange format when it is a
+/// normal number of that format.
+fn pack_bin(neg: bool, mut m: u64, mut e: i32, frac_bits: u32, exp_bits: u32) -> Option<u64> {
+    if m == 0 { return None; }
+    while m < (1u64 << frac_bits) { m <<= 1; e -= 1; }
+    while m >= (1u64 << (frac_bits + 1)) { if m & 1 != 0 { return None; } m >>= 1; e += 1; }
+    let bias = (1i32 << (exp_bits - 1)) - 1;
+    let be = e + frac_bits as i32 + bias;
+    if be <= 0 || be >= (1 << exp_bits) - 1 { return None; }
+    Some(((neg as u64) << (frac_bits + exp_bits)) | ((be as u64) << frac_bits) | (m & ((1u64 << frac_bits) - 1)))
+}
+
+/// Binary values that are exact short decimals: m·10^k·2^t (integers that are multiples of 10^k) and m·5^k·2^-t (fractions
+/// with few digits): the conversion must be exact (no flag) and choose the quantum exponent closest to zero; each decade
+/// selects its own pair of entries of the bipartite power tables.
+pub fn decimal_exact_bin(r: &mut Rng, frac_bits: u32, exp_bits: u32) -> Option<u64> {
+    let kmax = if frac_bits == 52 { 22 } else { 10 };
+    let k = r.below(kmax + 1) as u32;
+    let p5 = 5u64.pow(k);
+    let lim = (1u64 << (frac_bits + 1)) / p5;
+    let m = match r.below(4) { 0 => 1, 1 => lim.saturating_sub(1).max(1), _ => 1 + r.below(lim.max(1)) };
+    let mant = m.checked_mul(p5)?;
+    if mant >= (1u64 << (frac_bits + 1)) { return None; }
+    let span = if exp_bits == 11 { 900 } else { 100 };
+    let e = if r.chance(2, 3) { k as i32 + r.below(span) as i32 } else { -(r.below(if exp_bits == 11 { 130 } else { 60 }) as i32) };
+    pack_bin(r.chance(1, 2), mant, e, frac_bits, exp_bits)
+}
+
 pub fn f64_bits(r: &mut Rng) -> u64 {
+    if r.chance(1, 4) { if let Some(b) = decimal_exact_bin(r, 52, 11) { return b; } }
     let sign = r.below(2) << 63;
     let exp = match r.below(8) { 0 => 0, 1 => 2047, 2 => 1, 3 => 2046, _ => r.below(2048) };
     let m = (1u64 << 52) - 1;
